@@ -255,7 +255,7 @@ def run_property(pid, tier, harness, jobs, jobfns, level_text, assumptions, boun
             write_evidence(pid, tier, seed, [st], time.time() - t0, level_text, assumptions, bounds, outside, [], [], broken=True)
             return 3
     results = [st]
-    _DEADLINE[0] = t0 + float(os.environ.get('VERIF_DEADLINE_S') or (1500 if tier == 'quick' else 6 * 3600))
+    _DEADLINE[0] = t0 + float(os.environ.get('VERIF_DEADLINE_S') or (3600 if tier == 'quick' else 8 * 3600))
     if jobs:
         ctx = mp.get_context('fork')
         with ctx.Pool(min(nproc, len(jobs))) as pool:
